@@ -1659,6 +1659,640 @@ theorem expiredTs_fresh {d va : Option Nat} {now ts : Nat} (hva : ∀ v, va = so
       simp only [decide_eq_false_iff_not, Nat.not_le] at h2 ⊢
       omega
 
+theorem NoExp.of_frame_sub {p : Params} {s s' : SState} (h : NoExp p s) (hf : Frame0 s s')
+    (hs : Sub s s') : NoExp p s' := by
+  refine ⟨?_, ?_⟩
+  · intro n hn
+    rw [hf.va, hf.la, hf.now]
+    exact h.ao n (hs.prob n hn)
+  · intro n hn
+    rw [hf.va, hf.lm, hf.now]
+    exact h.wo n (hs.wo n hn)
+
+theorem NoExp.of_frame_subc {p : Params} {s s' : SState} {key info : Nat} {hash : UInt64}
+    (h : NoExp p s) (hf : Frame0 s s') (hs : SubC key hash info s s')
+    (hao : expiredTs p.tti s.va (getInfo s info).la s.now = false)
+    (hwo : expiredTs p.ttl s.va (getInfo s info).lm s.now = false) : NoExp p s' := by
+  refine ⟨?_, ?_⟩
+  · intro n hn
+    rw [hf.va, hf.la, hf.now]
+    rcases hs.prob n hn with h1 | ⟨_, _, h1⟩
+    · exact h.ao n h1
+    · rw [h1]; exact hao
+  · intro n hn
+    rw [hf.va, hf.lm, hf.now]
+    rcases hs.wo n hn with h1 | h1
+    · exact h.wo n h1
+    · rw [h1]; exact hwo
+
+theorem sum_take_pos_ne_nil {l : List Nat} {n : Nat} (h : 0 < (l.take n).sum) : l ≠ [] := by
+  intro e; rw [e] at h; simp at h
+
+/-- **The admission decision of the concurrent cache, state level.**  In a quiescent calm
+state `s`, the insert of a new key `k` that is not oversized and finds no room, followed by a
+maintenance run: with `n` the length of the shortest prefix of the access order whose weights
+cover `weigh k v`, if it exists and the popularity estimate of `k` read in `s` exceeds the
+summed estimates of that prefix, exactly the keys of that prefix leave the map, `k` stays, and
+the access order is the rest followed by `k`; otherwise the candidate is dropped and the map
+and the access order are what they were. -/
+theorem insert_sync_calm {p : Params} (hq : NoQuirks p) (hsm : SmallSketch p) {cap : Nat}
+    (hcap : p.cap = some cap) {s : SState} (hi : AInv p s) (hc : CalmS p cap s) (k v : Nat)
+    (hnew : AL.get? s.map k = none) (hfit : p.weigh k v ≤ cap)
+    (hroom : s.ws + p.weigh k v > cap) :
+    (∀ n, shortestPre (p.weigh k v) (probWeights s) = some n →
+      s.sk.frequency (p.hash k) > ((probFreqs s).take n).sum →
+      (syncRun p (insert p s k v)).map =
+        eraseKeys (AL.put s.map k (candVE s v)) ((s.prob.take n).map (·.key)) ∧
+      ∃ node : AoNode, node.key = k ∧
+        (syncRun p (insert p s k v)).prob = s.prob.drop n ++ [node]) ∧
+    ((¬ ∃ n, shortestPre (p.weigh k v) (probWeights s) = some n ∧
+        s.sk.frequency (p.hash k) > ((probFreqs s).take n).sum) →
+      (syncRun p (insert p s k v)).map = AL.erase (AL.put s.map k (candVE s v)) k ∧
+      (syncRun p (insert p s k v)).prob = s.prob) := by
+  have hnc := hi.top.nodes.toNodesCore
+  have hne := hc.noExp hnc
+  have hins := insert_fresh p hi.q v hnew
+  have hi2 : AInv p (insert p s k v) := by
+    have := step_ainv hq hsm hi (.ins k v)
+    rw [step_fst p s _ hi.top.nofault] at this
+    exact this
+  -- the state after the map step
+  have c_info := getInfo_withCand p s k v
+  have c_map : (withCand p s k v).map = AL.put s.map k (candVE s v) := rfl
+  have c_prob : (withCand p s k v).prob = s.prob := rfl
+  have c_va : (withCand p s k v).va = s.va := rfl
+  have c_now : (withCand p s k v).now = s.now := rfl
+  have c_sk : (withCand p s k v).sk = s.sk := rfl
+  have c_ws : (withCand p s k v).ws = s.ws := rfl
+  have c_wq : (withCand p s k v).writeQ = [] := hc.writeQ
+  have c_rq : (withCand p s k v).readQ = [] := hc.readQ
+  have hne_c : NoExp p (withCand p s k v) := by
+    refine ⟨?_, ?_⟩
+    · intro n hn
+      have hlt := node_info_lt hnc (show n ∈ s.prob from hn)
+      rw [c_info, if_neg (by omega)]
+      exact hne.ao n hn
+    · intro n hn
+      have hlt := wo_info_lt hnc (show n ∈ s.wo from hn)
+      rw [c_info, if_neg (by omega)]
+      exact hne.wo n hn
+  have hQ := housekeepW_quiet hcap (s := withCand p s k v) hc.readQ hc.writeQ hne_c hc.ws
+    hi.top.sk.skOff
+  generalize withCand p s k v = c at hins c_info c_map c_prob c_va c_now c_sk c_ws c_wq c_rq hne_c hQ
+  generalize housekeepW p c = H at hins hQ
+  have hHw : H.writeQ = [] := by rw [hQ.writeQ]; exact c_wq
+  rw [hHw, List.nil_append] at hins
+  rw [hins] at hi2 ⊢
+  have hwpos : 0 < p.weigh k v := by have := hc.ws; omega
+  -- the queued write, applied to a state `g` that agrees with `H`
+  have key : ∀ g : SState, g.map = H.map → g.infos = H.infos → g.prob = H.prob → g.wo = H.wo →
+      g.va = H.va → g.now = H.now → g.cws = H.ws → g.cec = H.ec → g.sk = H.sk →
+      g.nextId = H.nextId → g.fault = H.fault →
+      (∀ n, shortestPre (p.weigh k v) (probWeights s) = some n →
+        s.sk.frequency (p.hash k) > ((probFreqs s).take n).sum →
+        (handleUpsert p g k (p.hash k) (candVE s v) 0 (p.weigh k v)).map =
+          eraseKeys (AL.put s.map k (candVE s v)) ((s.prob.take n).map (·.key)) ∧
+        (∃ node : AoNode, node.key = k ∧
+          (handleUpsert p g k (p.hash k) (candVE s v) 0 (p.weigh k v)).prob =
+            s.prob.drop n ++ [node]) ∧
+        NoExp p (handleUpsert p g k (p.hash k) (candVE s v) 0 (p.weigh k v)) ∧
+        (handleUpsert p g k (p.hash k) (candVE s v) 0 (p.weigh k v)).cws ≤ cap) ∧
+      ((¬ ∃ n, shortestPre (p.weigh k v) (probWeights s) = some n ∧
+          s.sk.frequency (p.hash k) > ((probFreqs s).take n).sum) →
+        (handleUpsert p g k (p.hash k) (candVE s v) 0 (p.weigh k v)).map =
+          AL.erase (AL.put s.map k (candVE s v)) k ∧
+        (handleUpsert p g k (p.hash k) (candVE s v) 0 (p.weigh k v)).prob = s.prob ∧
+        NoExp p (handleUpsert p g k (p.hash k) (candVE s v) 0 (p.weigh k v)) ∧
+        (handleUpsert p g k (p.hash k) (candVE s v) 0 (p.weigh k v)).cws ≤ cap) := by
+    intro g gm gi gp gw gva gnow gcws gcec gsk gnid gf
+    have hgm : g.map = AL.put s.map k (candVE s v) := by rw [gm, hQ.map, c_map]
+    have hgp : g.prob = s.prob := by rw [gp, hQ.prob, c_prob]
+    have hgva : g.va = s.va := by rw [gva, hQ.va, c_va]
+    have hgnow : g.now = s.now := by rw [gnow, hQ.now, c_now]
+    have hgI : ∀ j, getInfo g j = if s.nextId = j then candInfo p s k v else getInfo s j := by
+      intro j; rw [getInfo_congr gi, getInfo_congr hQ.infos, c_info]
+    have hgf : ∀ h, g.sk.frequency h = s.sk.frequency h := by
+      intro h; rw [gsk, hQ.freq, c_sk]
+    have hgc : g.cws = s.ws := by rw [gcws, hQ.ws, c_ws]
+    -- invariants of `g`
+    have hu := hi2.top
+    have hsafe : Safe g := by
+      refine ⟨⟨hu.nodes.toNodesCore.congr (s' := g) ?_ ?_ ?_ ?_ ?_ ?_, ?_⟩, ?_⟩
+      · intro j; rw [getInfo_congr (s := { H with writeQ := [candOp p s k v] }) gi]
+      · intro j; rw [getInfo_congr (s := { H with writeQ := [candOp p s k v] }) gi]
+      · intro j; rw [getInfo_congr (s := { H with writeQ := [candOp p s k v] }) gi]
+      · exact gp ▸ List.Perm.refl _
+      · exact gw ▸ List.Perm.refl _
+      · exact Nat.le_of_eq gnid.symm
+      · rw [gcec, gp]; exact hu.nodes.count
+      · rw [gf]; exact hu.nofault
+    have hkn : (AL.keys g.map).Nodup := by rw [gm]; exact hu.map.kn
+    have hcand : AL.get? g.map k = some (candVE s v) := by rw [hgm]; exact AL.get?_put_self _ _ _
+    have hna : (getInfo g (candVE s v).info).admitted = false := by
+      rw [hgI, if_pos (show s.nextId = (candVE s v).info from rfl)]; rfl
+    have hcur : AllCur g g.prob := by
+      rw [hgp]
+      intro n hn
+      obtain ⟨e, he, hei⟩ := hc.cur n hn
+      refine ⟨e, ?_, hei⟩
+      have hne' : k ≠ n.key := by
+        intro e'; rw [← e', hnew] at he; cases he
+      rw [hgm, AL.get?_put_ne _ hne']
+      exact he
+    have hW : probWeights g = probWeights s := by
+      unfold probWeights
+      rw [hgp]
+      apply List.map_congr_left
+      intro n hn
+      have := node_info_lt hnc hn
+      rw [hgI, if_neg (by omega)]
+    have hF : probFreqs g = probFreqs s := by
+      unfold probFreqs
+      rw [hgp]
+      exact List.map_congr_left (fun n _ => hgf n.hash)
+    have hneg : NoExp p g := by
+      refine ⟨?_, ?_⟩
+      · intro n hn
+        rw [gp, hQ.prob] at hn
+        rw [gva, hQ.va, getInfo_congr gi, getInfo_congr hQ.infos, gnow, hQ.now]
+        exact hne_c.ao n hn
+      · intro n hn
+        rw [gw, hQ.wo] at hn
+        rw [gva, hQ.va, getInfo_congr gi, getInfo_congr hQ.infos, gnow, hQ.now]
+        exact hne_c.wo n hn
+    obtain ⟨adm, rej⟩ := handleUpsert_cand hq hcap (s := g) (k := k) (v := v) (ve := candVE s v)
+      0 (p.weigh k v) hsafe hkn hcand rfl hna hcur (by rw [hgc]; exact hroom) hfit
+    rw [hW, hF, hgf, hgm, hgp, hgc] at adm
+    rw [hW, hF, hgf, hgm, hgp, hgc] at rej
+    have hfr := handleUpsert_frame0 p g k (p.hash k) (candVE s v) 0 (p.weigh k v)
+    have hsc := handleUpsert_subc p g k (p.hash k) (candVE s v) 0 (p.weigh k v)
+    refine ⟨?_, ?_⟩
+    · intro n hn1 hn2
+      obtain ⟨m1, m2, m3⟩ := adm n hn1 hn2
+      obtain ⟨_, hsum, _⟩ := (shortestPre_eq_some_iff _ _ _).mp hn1
+      refine ⟨m1, ?_, ?_, ?_⟩
+      · obtain ⟨node, a1, _, a3⟩ := m2
+        exact ⟨node, a1, a3⟩
+      · -- a resident exists, so the fresh time stamps are not expired either
+        have hnil : s.prob ≠ [] := by
+          intro e
+          have : probWeights s = [] := by unfold probWeights; rw [e]; rfl
+          exact sum_take_pos_ne_nil (Nat.lt_of_lt_of_le hwpos hsum) this
+        obtain ⟨m, hm⟩ := List.exists_mem_of_ne_nil _ hnil
+        obtain ⟨e, he, hei⟩ := hc.cur m hm
+        have hl := hc.live _ _ he
+        unfold isExpiredInfo at hl
+        rw [Bool.or_eq_false_iff] at hl
+        refine hneg.of_frame_subc hfr hsc ?_ ?_
+        · rw [hgva, hgnow, hgI, if_pos (show s.nextId = (candVE s v).info from rfl)]
+          exact expiredTs_fresh hi.ts.va (hi.ts.la _) hl.2
+        · rw [hgva, hgnow, hgI, if_pos (show s.nextId = (candVE s v).info from rfl)]
+          exact expiredTs_fresh hi.ts.va (hi.ts.lm _) hl.1
+      · rw [m3]
+        have := hc.ws
+        omega
+    · intro hno
+      obtain ⟨r1, r2, r3, r4⟩ := rej hno
+      refine ⟨r1, r2, hneg.of_frame_sub hfr r4, ?_⟩
+      rw [r3]; exact hc.ws
+  have hr : ({ H with writeQ := [candOp p s k v] } : SState).readQ = [] := by
+    show H.readQ = []
+    rw [hQ.readQ]; exact c_rq
+  obtain ⟨kadm, krej⟩ := key
+    { { H with writeQ := [candOp p s k v] } with cec := H.ec, cws := H.ws, writeQ := [] }
+    rfl rfl rfl rfl rfl rfl rfl rfl rfl rfl rfl
+  refine ⟨?_, ?_⟩
+  · intro n hn1 hn2
+    obtain ⟨m1, m2, m3, m4⟩ := kadm n hn1 hn2
+    obtain ⟨e1, e2⟩ := syncRun_one hcap (s := { H with writeQ := [candOp p s k v] })
+      (candOp p s k v) hr rfl m3 m4
+    exact ⟨e1.trans m1, by obtain ⟨node, a1, a2⟩ := m2; exact ⟨node, a1, e2.trans a2⟩⟩
+  · intro hno
+    obtain ⟨m1, m2, m3, m4⟩ := krej hno
+    obtain ⟨e1, e2⟩ := syncRun_one hcap (s := { H with writeQ := [candOp p s k v] })
+      (candOp p s k v) hr rfl m3 m4
+    exact ⟨e1.trans m1, e2.trans m2⟩
+
+/-! ### snapshots versus states -/
+
+theorem snapshot_entries_all {p : Params} {s : SState} (f : EntryView → Bool) :
+    (snapshot p s).entries.all f = true ↔
+      ∀ k e, (k, e) ∈ s.map → f (entryView s (k, e)) = true := by
+  simp only [snapshot, List.all_eq_true, mem_sortBy, List.mem_map]
+  constructor
+  · intro h k e hm; exact h _ ⟨(k, e), hm, rfl⟩
+  · rintro h x ⟨⟨k, e⟩, hm, rfl⟩; exact h k e hm
+
+/-- Looking a key up in a sorted list of per-entry records. -/
+theorem find?_sortBy_map {α β : Type} (key : α → Nat) (g : Nat × β → α)
+    (hg : ∀ kv, key (g kv) = kv.1) (m : List (Nat × β)) (hn : (AL.keys m).Nodup) (k : Nat) :
+    (sortBy key (m.map g)).find? (fun x => key x == k) =
+      (AL.get? m k).map (fun e => g (k, e)) := by
+  have hperm := sortBy_perm key (m.map g)
+  have hkeys : ((sortBy key (m.map g)).map key).Nodup := by
+    refine ((hperm.map key).nodup_iff).mpr ?_
+    have : (m.map g).map key = AL.keys m := by
+      rw [AL.keys_eq_map, List.map_map]
+      exact List.map_congr_left (fun kv _ => hg kv)
+    rw [this]; exact hn
+  cases hget : AL.get? m k with
+  | none =>
+    simp only [Option.map_none]
+    rw [List.find?_eq_none]
+    intro x hx
+    rw [mem_sortBy, List.mem_map] at hx
+    obtain ⟨kv, hkv, rfl⟩ := hx
+    rw [hg]
+    intro hk
+    have hk' : kv.1 = k := by simpa using hk
+    have : k ∈ AL.keys m := by
+      rw [AL.keys_eq_map]; exact List.mem_map.mpr ⟨kv, hkv, hk'⟩
+    rw [← AL.get?_isSome_iff, hget] at this
+    cases this
+  | some e =>
+    simp only [Option.map_some]
+    have hmem : g (k, e) ∈ sortBy key (m.map g) := by
+      rw [mem_sortBy]; exact List.mem_map.mpr ⟨(k, e), AL.mem_of_get? hget, rfl⟩
+    have := find?_key_of_nodup key _ hkeys hmem
+    rw [hg] at this
+    exact this
+
+theorem weightOfKey_snapshot {p : Params} {s : SState} (hkn : (AL.keys s.map).Nodup) (k : Nat) :
+    weightOfKey (snapshot p s) k =
+      match AL.get? s.map k with
+      | some ve => (getInfo s ve.info).weight
+      | none => 0 := by
+  unfold weightOfKey
+  have := find?_sortBy_map (·.key) (entryView s) (fun _ => rfl) s.map hkn k
+  simp only [snapshot]
+  rw [this]
+  cases AL.get? s.map k <;> simp [entryView]
+
+theorem freqOfKey_snapshot {p : Params} {s : SState} (hkn : (AL.keys s.map).Nodup) (k : Nat) :
+    freqOfKey (snapshot p s) k =
+      match AL.get? s.map k with
+      | some _ => s.sk.frequency (p.hash k)
+      | none => 0 := by
+  unfold freqOfKey
+  have := find?_sortBy_map (α := Nat × Nat) (·.1)
+    (fun kv => (kv.1, s.sk.frequency (p.hash kv.1))) (fun _ => rfl) s.map hkn k
+  simp only [snapshot]
+  rw [this]
+  cases AL.get? s.map k <;> simp
+
+theorem lruOrder_snapshot (p : Params) (s : SState) :
+    lruOrder (snapshot p s) = s.prob.map (·.key) := by
+  simp [lruOrder, snapshot, List.map_map, Function.comp_def]
+
+theorem mem_keysOf_snapshot (p : Params) (s : SState) (k : Nat) :
+    k ∈ keysOf (snapshot p s) ↔ ∃ e, AL.get? s.map k = some e := by
+  simp only [keysOf, snapshot, List.mem_map, mem_sortBy]
+  constructor
+  · rintro ⟨ev, ⟨kv, hkv, rfl⟩, rfl⟩
+    have : kv.1 ∈ AL.keys s.map := by
+      rw [AL.keys_eq_map]; exact List.mem_map.mpr ⟨kv, hkv, rfl⟩
+    rw [← AL.get?_isSome_iff] at this
+    cases h : AL.get? s.map kv.1 with
+    | none => rw [h] at this; cases this
+    | some e => exact ⟨e, by simpa [entryView] using h⟩
+  · rintro ⟨e, he⟩
+    exact ⟨entryView s (k, e), ⟨(k, e), AL.mem_of_get? he, rfl⟩, rfl⟩
+
+theorem allCur_of_snapshot {p : Params} {s : SState}
+    (h : (snapshot p s).prob.all (·.current) = true) : AllCur s s.prob := by
+  intro n hn
+  simp only [snapshot, List.all_eq_true, List.mem_map] at h
+  have := h _ ⟨n, hn, rfl⟩
+  cases hg : AL.get? s.map n.key with
+  | none => rw [hg] at this; cases this
+  | some e =>
+    rw [hg] at this
+    exact ⟨e, rfl, eq_of_beq this⟩
+
+theorem live_of_entryLiveAt {p : Params} {s : SState} {k : Nat} {ve : VE}
+    (h : entryLiveAt p.ttl p.tti s.now s.va (entryView s (k, ve)) = true) :
+    isExpiredInfo p s (getInfo s ve.info) s.now = false := by
+  unfold entryLiveAt entryView at h
+  unfold isExpiredInfo expiredTs
+  simp only [Bool.and_eq_true, Bool.not_eq_true'] at h
+  obtain ⟨⟨h1, h2⟩, h3⟩ := h
+  unfold expiredAt at h1 h2
+  cases hva : s.va with
+  | none =>
+    cases httl : p.ttl <;> cases htti : p.tti <;> simp_all
+  | some va =>
+    rw [hva] at h3
+    simp only [Bool.and_eq_true, Bool.not_eq_true', decide_eq_false_iff_not] at h3
+    cases httl : p.ttl <;> cases htti : p.tti <;> simp_all
+
+theorem calmS_of_snapshot {p : Params} {cap : Nat} {s : SState}
+    (hcalm : calm cap p.ttl p.tti (snapshot p s) = true) (hr : (snapshot p s).rq = 0)
+    (hw : (snapshot p s).wq = 0) : CalmS p cap s := by
+  simp only [calm, Bool.and_eq_true, decide_eq_true_eq] at hcalm
+  obtain ⟨⟨⟨hws, hlive⟩, _⟩, hcur⟩ := hcalm
+  rw [snapshot_entries_all] at hlive
+  refine ⟨List.length_eq_zero_iff.mp hr, List.length_eq_zero_iff.mp hw, hws,
+    allCur_of_snapshot hcur, ?_⟩
+  intro k ve he
+  exact live_of_entryLiveAt (hlive k ve (AL.mem_of_get? he))
+
+/-- The oracle's prediction, read off a state all of whose nodes are current. -/
+theorem predictAdmission_snapshot {p : Params} {s : SState} (hkn : (AL.keys s.map).Nodup)
+    (hcur : AllCur s s.prob) (hh : PH p s) (w f : Nat) :
+    predictAdmission (snapshot p s) w f =
+      match shortestPre w (probWeights s) with
+      | none => none
+      | some n =>
+        if f > ((probFreqs s).take n).sum then some ((s.prob.take n).map (·.key)) else none := by
+  unfold predictAdmission
+  rw [shortestPrefix_eq, lruOrder_snapshot]
+  have hW : (s.prob.map (·.key)).map (weightOfKey (snapshot p s)) = probWeights s := by
+    unfold probWeights
+    rw [List.map_map]
+    apply List.map_congr_left
+    intro n hn
+    obtain ⟨e, he, hei⟩ := hcur n hn
+    simp only [Function.comp, weightOfKey_snapshot hkn, he, hei]
+  have hF : (s.prob.map (·.key)).map (freqOfKey (snapshot p s)) = probFreqs s := by
+    unfold probFreqs
+    rw [List.map_map]
+    apply List.map_congr_left
+    intro n hn
+    obtain ⟨e, he, _⟩ := hcur n hn
+    simp only [Function.comp, freqOfKey_snapshot hkn, he, hh n hn]
+  rw [hW, Nat.sub_zero]
+  cases shortestPre w (probWeights s) with
+  | none => rfl
+  | some n =>
+    simp only [Option.map_some, List.nil_append]
+    rw [← hF, List.map_take, List.map_take]
+
+/-! ### the C13 trace oracle on model traces -/
+
+/-- The check the C13 oracle performs around `insert` + `sync` holds for the model: the
+snapshot after is what the closed formula predicts from the quiescent snapshot of `s` and the
+estimate of `k` read in `s`. -/
+theorem admissionOk_model {p : Params} (hq : NoQuirks p) (hsm : SmallSketch p) {cap : Nat}
+    (hcap : p.cap = some cap) {s : SState} (hi : AInv p s) (hr : (snapshot p s).rq = 0)
+    (hw : (snapshot p s).wq = 0) (k v : Nat) :
+    admissionOk cap p.ttl p.tti p.weigh (snapshot p s) k v (s.sk.frequency (p.hash k))
+      (snapshot p (syncRun p (insert p s k v))) = true := by
+  unfold admissionOk
+  dsimp only
+  cases happ : (!(keysOf (snapshot p s)).contains k && calm cap p.ttl p.tti (snapshot p s) &&
+      decide (p.weigh k v ≤ cap) && decide ((snapshot p s).ws + p.weigh k v > cap)) with
+  | false => rfl
+  | true =>
+  simp only [Bool.not_true, Bool.false_or]
+  simp only [Bool.and_eq_true, Bool.not_eq_true', decide_eq_true_eq] at happ
+  obtain ⟨⟨⟨hfresh, hcalm⟩, hle⟩, hgt⟩ := happ
+  have hnew : AL.get? s.map k = none := by
+    cases hg : AL.get? s.map k with
+    | none => rfl
+    | some e =>
+      have : k ∈ keysOf (snapshot p s) := (mem_keysOf_snapshot p s k).mpr ⟨e, hg⟩
+      rw [← List.contains_iff_mem, hfresh] at this; cases this
+  have hc := calmS_of_snapshot hcalm hr hw
+  have hkn := hi.top.map.kn
+  have hkn2 : (AL.keys (AL.put s.map k (candVE s v))).Nodup := AL.nodup_put _ _ hkn
+  obtain ⟨hadm, hrej⟩ := insert_sync_calm hq hsm hcap hi hc k v hnew hle hgt
+  rw [predictAdmission_snapshot hkn hc.cur hi.hash.prob]
+  have hrejected : (¬ ∃ n, shortestPre (p.weigh k v) (probWeights s) = some n ∧
+      s.sk.frequency (p.hash k) > ((probFreqs s).take n).sum) →
+      sameKeys (keysOf (snapshot p (syncRun p (insert p s k v)))) (keysOf (snapshot p s)) = true := by
+    intro hno
+    rw [sameKeys_iff]
+    intro x
+    rw [mem_keysOf_snapshot, mem_keysOf_snapshot, (hrej hno).1, AL.get?_erase k x hkn2]
+    by_cases hx : k = x
+    · subst hx
+      rw [if_pos rfl, hnew]
+    · rw [if_neg hx, AL.get?_put_ne _ hx]
+  cases hsp : shortestPre (p.weigh k v) (probWeights s) with
+  | none =>
+    dsimp only
+    apply hrejected
+    rintro ⟨n, h1, _⟩
+    rw [hsp] at h1; cases h1
+  | some n =>
+    dsimp only
+    by_cases hf : s.sk.frequency (p.hash k) > ((probFreqs s).take n).sum
+    · rw [if_pos hf]
+      dsimp only
+      obtain ⟨hmap, _⟩ := hadm n hsp hf
+      rw [sameKeys_iff]
+      intro x
+      rw [mem_keysOf_snapshot, hmap, get?_eraseKeys hkn2]
+      simp only [List.mem_cons, List.mem_filter, Bool.not_eq_true', mem_keysOf_snapshot]
+      -- no victim has the candidate's key
+      have hkv : k ∉ (s.prob.take n).map (·.key) := by
+        intro hin
+        obtain ⟨m, hm, hmk⟩ := List.mem_map.mp hin
+        obtain ⟨e, he, _⟩ := hc.cur m (List.mem_of_mem_take hm)
+        rw [hmk, hnew] at he; cases he
+      by_cases hx : x = k
+      · subst hx
+        rw [if_neg hkv, AL.get?_put_self]
+        exact ⟨fun _ => Or.inl rfl, fun _ => ⟨_, rfl⟩⟩
+      · have hx' : k ≠ x := fun e => hx e.symm
+        by_cases hin : x ∈ (s.prob.take n).map (·.key)
+        · rw [if_pos hin]
+          constructor
+          · rintro ⟨e', he'⟩; cases he'
+          · rintro (h | ⟨_, h⟩)
+            · exact absurd h hx
+            · rw [← List.contains_iff_mem] at hin
+              rw [hin] at h; cases h
+        · rw [if_neg hin, AL.get?_put_ne _ hx']
+          constructor
+          · intro h
+            refine Or.inr ⟨h, ?_⟩
+            cases hcn : ((s.prob.take n).map (·.key)).contains x with
+            | false => rfl
+            | true => exact absurd (List.contains_iff_mem.mp hcn) hin
+          · rintro (h | ⟨h, _⟩)
+            · exact absurd h hx
+            · exact h
+    · rw [if_neg hf]
+      dsimp only
+      apply hrejected
+      rintro ⟨n', h1, h2⟩
+      rw [hsp] at h1; cases h1
+      exact hf h2
+
+theorem run_cons (p : Params) (s : SState) (op : Op) (rest : List Op) :
+    run p s (op :: rest) = (op, (step p s op).2) :: run p (step p s op).1 rest := rfl
+
+/-- One step of a run from a state satisfying the invariant. -/
+theorem run_cons_ok {p : Params} (hq : NoQuirks p) (hsm : SmallSketch p) {s : SState}
+    (hi : AInv p s) (op : Op) (rest : List Op) :
+    run p s (op :: rest) = (op, (rawStep p s op).2) :: run p (rawStep p s op).1 rest ∧
+    AInv p (rawStep p s op).1 := by
+  have h2 := step_ainv hq hsm hi op
+  have := step_ok p s op hi.top.nofault h2.top.nofault
+  rw [run_cons, this]
+  rw [this] at h2
+  exact ⟨rfl, h2⟩
+
+theorem run_eq_cons {p : Params} (hq : NoQuirks p) (hsm : SmallSketch p) {s : SState}
+    (hi : AInv p s) {h : List Op} {x : Op × Obs} {t : List (Op × Obs)} (e : run p s h = x :: t) :
+    ∃ op rest, h = op :: rest ∧ x = (op, (rawStep p s op).2) ∧
+      t = run p (rawStep p s op).1 rest ∧ AInv p (rawStep p s op).1 := by
+  cases h with
+  | nil => cases e
+  | cons op rest =>
+    obtain ⟨e1, h2⟩ := run_cons_ok hq hsm hi op rest
+    rw [e1] at e
+    obtain ⟨e2, e3⟩ := List.cons.inj e
+    exact ⟨op, rest, rfl, e2.symm, e3.symm, h2⟩
+
+/-- The C13 walk over a model trace: every window
+`sync, snap, freq k, ins k v, [snap,] sync, snap` passes. -/
+theorem admitC13Sync_run {p : Params} (hq : NoQuirks p) (hsm : SmallSketch p) {cap : Nat}
+    (hcap : p.cap = some cap) :
+    ∀ (n : Nat) (h : List Op), h.length ≤ n → ∀ (s : SState), AInv p s →
+      admitC13Sync cap p.ttl p.tti p.weigh (run p s h) = true := by
+  intro n
+  induction n with
+  | zero =>
+    intro h hl s _
+    have : h = [] := List.length_eq_zero_iff.mp (Nat.le_zero.mp hl)
+    subst this
+    simp [run, admitC13Sync]
+  | succ n ih =>
+    intro h hl s hi
+    cases h with
+    | nil => simp [run, admitC13Sync]
+    | cons op rest =>
+      have hlr : rest.length ≤ n := by simpa using hl
+      obtain ⟨hrun, hi1⟩ := run_cons_ok hq hsm hi op rest
+      rw [hrun]
+      unfold admitC13Sync
+      split
+      · -- sync, snap, freq, ins, sync, snap
+        rename_i before k f k' v after rest' heq
+        obtain ⟨e1, e2⟩ := List.cons.inj heq
+        have hop : op = .sync := (Prod.mk.inj e1).1
+        subst hop
+        obtain ⟨op2, r2, hr2, hx2, ht2, hi2⟩ := run_eq_cons hq hsm hi1 e2
+        have hop2 : op2 = .snap := (Prod.mk.inj hx2).1.symm
+        subst hop2
+        have hbefore : before = snapshot p (syncRun p s) := Obs.snap.inj (Prod.mk.inj hx2).2
+        obtain ⟨op3, r3, hr3, hx3, ht3, hi3⟩ := run_eq_cons hq hsm hi2 ht2.symm
+        have hop3 : op3 = .freq k := (Prod.mk.inj hx3).1.symm
+        subst hop3
+        have hf : f = (syncRun p s).sk.frequency (p.hash k) := Obs.freq.inj (Prod.mk.inj hx3).2
+        obtain ⟨op4, r4, hr4, hx4, ht4, hi4⟩ := run_eq_cons hq hsm hi3 ht3.symm
+        have hop4 : op4 = .ins k' v := (Prod.mk.inj hx4).1.symm
+        subst hop4
+        obtain ⟨op5, r5, hr5, hx5, ht5, hi5⟩ := run_eq_cons hq hsm hi4 ht4.symm
+        have hop5 : op5 = .sync := (Prod.mk.inj hx5).1.symm
+        subst hop5
+        obtain ⟨op6, r6, hr6, hx6, ht6, hi6⟩ := run_eq_cons hq hsm hi5 ht5.symm
+        have hop6 : op6 = .snap := (Prod.mk.inj hx6).1.symm
+        subst hop6
+        have hafter : after = snapshot p (syncRun p (insert p (syncRun p s) k' v)) :=
+          Obs.snap.inj (Prod.mk.inj hx6).2
+        subst hr2 hr3 hr4 hr5 hr6
+        rw [Bool.and_eq_true]
+        refine ⟨?_, ?_⟩
+        · by_cases hk : k = k'
+          · subst hk
+            cases hquiet : (before.rq == 0 && before.wq == 0 && after.rq == 0 && after.wq == 0) with
+            | false => simp
+            | true =>
+              simp only [Bool.and_eq_true, beq_iff_eq] at hquiet
+              have hadm := admissionOk_model hq hsm hcap (s := syncRun p s) hi1
+                (by rw [← hbefore]; exact hquiet.1.1.1) (by rw [← hbefore]; exact hquiet.1.1.2) k v
+              rw [hbefore, hf, hafter, hadm]
+              simp
+          · simp [hk]
+        · have : ((Op.sync, Obs.ok) :: (Op.snap, Obs.snap after) :: rest') =
+              run p (insert p (syncRun p s) k' v) (.sync :: .snap :: r6) := by
+            have hi4' : AInv p (insert p (syncRun p s) k' v) := hi4
+            have hi5' : AInv p (syncRun p (insert p (syncRun p s) k' v)) := hi5
+            rw [(run_cons_ok hq hsm hi4' _ _).1]
+            show _ = _ :: run p (syncRun p (insert p (syncRun p s) k' v)) (.snap :: r6)
+            rw [(run_cons_ok hq hsm hi5' _ _).1, hafter, ht6]
+            rfl
+          rw [this]
+          refine ih _ ?_ _ hi4
+          simp only [List.length_cons] at hlr ⊢
+          omega
+      · -- sync, snap, freq, ins, snap, sync, snap
+        rename_i before k f k' v mid after rest' heq
+        obtain ⟨e1, e2⟩ := List.cons.inj heq
+        have hop : op = .sync := (Prod.mk.inj e1).1
+        subst hop
+        obtain ⟨op2, r2, hr2, hx2, ht2, hi2⟩ := run_eq_cons hq hsm hi1 e2
+        have hop2 : op2 = .snap := (Prod.mk.inj hx2).1.symm
+        subst hop2
+        have hbefore : before = snapshot p (syncRun p s) := Obs.snap.inj (Prod.mk.inj hx2).2
+        obtain ⟨op3, r3, hr3, hx3, ht3, hi3⟩ := run_eq_cons hq hsm hi2 ht2.symm
+        have hop3 : op3 = .freq k := (Prod.mk.inj hx3).1.symm
+        subst hop3
+        have hf : f = (syncRun p s).sk.frequency (p.hash k) := Obs.freq.inj (Prod.mk.inj hx3).2
+        obtain ⟨op4, r4, hr4, hx4, ht4, hi4⟩ := run_eq_cons hq hsm hi3 ht3.symm
+        have hop4 : op4 = .ins k' v := (Prod.mk.inj hx4).1.symm
+        subst hop4
+        obtain ⟨op5, r5, hr5, hx5, ht5, hi5⟩ := run_eq_cons hq hsm hi4 ht4.symm
+        have hop5 : op5 = .snap := (Prod.mk.inj hx5).1.symm
+        subst hop5
+        have hmid : mid = snapshot p (insert p (syncRun p s) k' v) :=
+          Obs.snap.inj (Prod.mk.inj hx5).2
+        obtain ⟨op6, r6, hr6, hx6, ht6, hi6⟩ := run_eq_cons hq hsm hi5 ht5.symm
+        have hop6 : op6 = .sync := (Prod.mk.inj hx6).1.symm
+        subst hop6
+        obtain ⟨op7, r7, hr7, hx7, ht7, hi7⟩ := run_eq_cons hq hsm hi6 ht6.symm
+        have hop7 : op7 = .snap := (Prod.mk.inj hx7).1.symm
+        subst hop7
+        have hafter : after = snapshot p (syncRun p (insert p (syncRun p s) k' v)) :=
+          Obs.snap.inj (Prod.mk.inj hx7).2
+        subst hr2 hr3 hr4 hr5 hr6 hr7
+        rw [Bool.and_eq_true]
+        refine ⟨?_, ?_⟩
+        · by_cases hk : k = k'
+          · subst hk
+            cases hquiet : (before.rq == 0 && before.wq == 0 && after.rq == 0 && after.wq == 0) with
+            | false => simp
+            | true =>
+              simp only [Bool.and_eq_true, beq_iff_eq] at hquiet
+              have hadm := admissionOk_model hq hsm hcap (s := syncRun p s) hi1
+                (by rw [← hbefore]; exact hquiet.1.1.1) (by rw [← hbefore]; exact hquiet.1.1.2) k v
+              rw [hbefore, hf, hafter, hadm]
+              simp
+          · simp [hk]
+        · have : ((Op.snap, Obs.snap mid) :: (Op.sync, Obs.ok) :: (Op.snap, Obs.snap after) :: rest') =
+              run p (insert p (syncRun p s) k' v) (.snap :: .sync :: .snap :: r7) := by
+            have hi4' : AInv p (insert p (syncRun p s) k' v) := hi4
+            have hi6' : AInv p (syncRun p (insert p (syncRun p s) k' v)) := hi6
+            rw [(run_cons_ok hq hsm hi4' _ _).1]
+            show _ = _ :: run p (insert p (syncRun p s) k' v) (.sync :: .snap :: r7)
+            rw [(run_cons_ok hq hsm hi4' _ _).1]
+            show _ = _ :: _ :: run p (syncRun p (insert p (syncRun p s) k' v)) (.snap :: r7)
+            rw [(run_cons_ok hq hsm hi6' _ _).1, hmid, hafter, ht7]
+            rfl
+          rw [this]
+          refine ih _ ?_ _ hi4
+          simp only [List.length_cons] at hlr ⊢
+          omega
+      · rename_i x t heq
+        obtain ⟨_, e2⟩ := List.cons.inj heq
+        rw [← e2]
+        exact ih rest hlr _ hi1
+      · rfl
+
+/-- **C13 on traces** (concurrent cache driven by one thread): the oracle accepts every trace
+of the model. -/
+theorem oracleC13_trace {p : Params} (hq : NoQuirks p) (hsm : SmallSketch p) (h : List Op) :
+    oracleC13 .sync p.cap p.ttl p.tti p.weigh (trace p h) = true := by
+  unfold oracleC13 trace
+  cases hcap : p.cap with
+  | none => rfl
+  | some cap =>
+    dsimp only
+    exact admitC13Sync_run hq hsm hcap h.length h (Nat.le_refl _) {} (init_ainv p)
+
 end Admit
 end Sync
 end MiniMoka
